@@ -144,8 +144,8 @@ PROPS["C17"] = {
     "corr_modules": ["WireC", "FrameC", "E2C", "E3C"],
     "suites": [("e1", "ids", ["debug"]), ("e1", "dgram", ["debug"]), ("e1", "sheader", ["debug"]), ("e2", "foreign", ["debug"]), ("e2", "wdgram", ["debug"]), ("e2", "emit", ["debug"]), ("e2", "trace", ["debug"])],
     "technique": PROOF_TECH,
-    "level_text": "theorems for all 2^62 ids: acceptance iff client-initiated bidirectional, conversions mutually inverse and in range, unsafe preconditions never violated, parsed session ids always valid; tie: differential runs over all low-bit classes x boundary magnitudes",
-    "level_note": CODEC_NOTE + "; the driver-level session filter (foreign streams stopped, foreign datagrams dropped) is exercised by the wire engine, see DESIGN.md",
+    "level_text": "theorems for all 2^62 ids: acceptance iff client-initiated bidirectional, conversions mutually inverse and in range, unsafe preconditions never violated, parsed session ids always valid; the session filter of the accept/receive loops returns only items of the caller's session, refuses only foreign ones, keeps order and cannot skip an own item (any channel content, any number of calls); tie: differential runs over all low-bit classes x boundary magnitudes; foreign streams and datagrams against the running driver; every logged receive checked against the filter model",
+    "level_note": CODEC_NOTE + "; the driver-level session filter is modelled (Model/Filter.v) and exercised by the wire and trace engines",
     "design_ref": "DESIGN.md 5 (C17)",
     "trusted_base": [],
     "assumptions": [],
@@ -196,7 +196,7 @@ PROPS["C11"] = {
     "oracle_also": [],
     "technique": PROOF_TECH,
     "level_text": "theorems for every byte string: no decoder panics, spins or runs out of fuel, returned values respect their invariants, a QPACK integer that does not fit is an error and a returned one equals the mathematical value of the consumed bytes (pre-repair code refuted, both overflow modes); tie: differential runs in debug and release builds (overflow checks on/off), exhaustive short strings, adversarial continuation runs, panics caught",
-    "level_note": CODEC_NOTE + "; the allocation bound is argued from the model's structure (payload buffers only after the 4096 check, string buffers only after the bytes are present) and is not measured by a counting allocator in this revision",
+    "level_note": CODEC_NOTE + "; the allocation bound is argued from the model's structure (payload buffers only after the 4096 check, string buffers only after the bytes are present) and measured on the implementation by a counting allocator (DESIGN.md 5, C11)",
     "design_ref": "DESIGN.md 5 (C11), 6",
     "trusted_base": ["usize is modelled as 64 bits (the sandbox target); httlib-huffman OneBit decoding is modelled and compared exhaustively on 1- and 2-byte inputs"],
     "assumptions": [],
@@ -221,7 +221,7 @@ PROPS["C01"] = {
     "corr_modules": ["E2C", "FrameC"],
     "suites": [("e2", "streams", ["debug"]), ("e2", "emit", ["debug"]), ("e1", "sheader", ["debug"]), ("e2", "pair", ["debug"])],
     "technique": PROOF_TECH,
-    "level_text": "theorems: for every valid session id, payload and stream ending the accept path strips exactly the preamble the opening path emits (uni and bidi) and hands over exactly the payload; the preamble readers are invariant under every segmentation/Pending schedule (poll machines proved); tie: the real driver reads streams written by a raw quinn peer with the preamble cut at every offset, payloads up to several KB, concurrent streams",
+    "level_text": "theorems: for every valid session id, payload and stream ending the accept path strips exactly the preamble the opening path emits (uni and bidi) and hands over exactly the payload; the preamble readers are invariant under every segmentation/Pending schedule (poll machines proved); a transition system of one stream direction (write calls, partial writes of any size, any flow-control window, arrivals, reads with any buffer size, finish) keeps read ++ buffered ++ in flight ++ unsent equal to what was written, reports end-of-stream only when everything was read, and composed with the opening and accept paths hands over exactly the concatenation of the writes; tie: the real driver reads streams written by a raw quinn peer with the preamble cut at every offset, payloads up to several KB, concurrent streams; the library on both ends with MB payloads, random chunkings, tokio I/O traits, 1-2 bytes of credit",
     "level_note": CODEC_NOTE + WIRE_NOTE + "; QUIC is assumed to be a reliable ordered byte pipe per stream",
     "design_ref": "DESIGN.md 5 (C01)",
     "trusted_base": ["quinn delivers stream bytes reliably and in order"],
@@ -245,7 +245,7 @@ PROPS["C07"] = {
     "corr_modules": ["E2C", "E3C"],
     "suites": [("e2", "stall", ["debug"]), ("e2", "credit", ["debug"]), ("e2", "trace", ["debug"]), ("e2", "backlog", ["debug"])],
     "technique": PROOF_TECH,
-    "level_text": "theorems on the hand-off transition system for every capacity, every number of stalled streams and every interleaving: no stalled stream disables the worker, another stream's task or the application; a healthy stream is delivered by a bounded plan using only its own and worker/app steps; the pinned design is refuted (one stalled stream blocks all); tie: k stalled streams of either kind at each stall position followed by healthy ones against the running driver",
+    "level_text": "theorems on the hand-off transition system for every capacity, every number of stalled streams and every interleaving: no stalled stream disables the worker, another stream's task or the application; a healthy stream is delivered by a bounded plan using only its own and worker/app steps; the pinned design is refuted (one stalled stream blocks all); the same holds in every state of the validator of observed traces; tie: k stalled streams of either kind at each stall position (and never-ending non-WebTransport streams) followed by healthy ones against the running driver; the driver's own hand-off event log (hooks) folded through the transition system; streams stalled in their preamble when the session ends",
     "level_note": CODEC_NOTE + WIRE_NOTE + "; liveness is bounded steps of the model under its scheduler; tokio wake-ups are observed, not modelled",
     "design_ref": "DESIGN.md 5 (C07), 6",
     "trusted_base": ["tokio mpsc / spawn semantics"],
@@ -257,7 +257,7 @@ PROPS["C08"] = {
     "corr_modules": ["E2C", "E3C"],
     "suites": [("e2", "pace", ["debug"]), ("e2", "streams", ["debug"]), ("e2", "pair", ["debug"]), ("e2", "trace", ["debug"]), ("e2", "early", ["debug"])],
     "technique": PROOF_TECH,
-    "level_text": "theorem (induction over arbitrary label sequences = all interleavings, all capacities): the opened streams are partitioned among accept queue, tasks, channel, delivered and ended -- none lost, duplicated or invented; cancelling an accept changes nothing; tie: 10-40 (thorough 120) streams with slow, multi-task and cancelling acceptors against the running driver",
+    "level_text": "theorem (induction over arbitrary label sequences = all interleavings, all capacities): the opened streams are partitioned among accept queue, tasks, channel, delivered and ended -- none lost, duplicated or invented; cancelling an accept changes nothing; every event log of the running driver that the validator accepts satisfies the same statement, and a first-in-first-out log is a run of the transition system (trace inclusion); tie: 10-40 (thorough 120) streams with slow, multi-task and cancelling acceptors against the running driver; the driver's own event log (hooks) validated on every run; streams opened before the application accepted the session",
     "level_note": CODEC_NOTE + WIRE_NOTE + "; tokio's documented cancel safety of mpsc::Receiver::recv and Mutex::lock is trusted",
     "design_ref": "DESIGN.md 5 (C08)",
     "trusted_base": ["tokio cancel-safety contracts"],
@@ -269,7 +269,7 @@ PROPS["C09"] = {
     "corr_modules": ["E2C", "E3C"],
     "suites": [("e2", "session", ["debug"]), ("e2", "pair", ["debug"]), ("e2", "requests", ["debug"]), ("e2", "cell", ["debug"]), ("e2", "backlog", ["debug"])],
     "technique": PROOF_TECH,
-    "level_text": "theorems: the result cell is set at most once and every later get returns that value; each reported error names the actual cause (peer code+reason, local H3 error, transport cause, or local close); the worker closes with the code of the cause; tie: every way the session stream / connection ends x pending and subsequent calls against the running driver (none hangs, none succeeds, none panics)",
+    "level_text": "theorems: the result cell is set at most once and every later get returns that value; each reported error names the actual cause (peer code+reason, local H3 error, transport cause, or local close); the worker closes with the code of the cause; a call reports the end exactly when its own channel is empty, the worker has ended and no task of its kind is left, independently of the other kind; a draining application gets the whole backlog and then the end (any capacity, any backlog); tie: every way the session stream / connection ends x pending and subsequent calls against the running driver (none hangs, none succeeds, none panics); operation sequences on the driver's real result cell (hooks) against the model; backlogs of one kind when the session ends",
     "level_note": CODEC_NOTE + WIRE_NOTE + "; 'bounded time' is bounded model steps; a runtime shut down under the worker is outside the model",
     "design_ref": "DESIGN.md 5 (C09)",
     "trusted_base": ["tokio watch channel semantics (modelled as the set-once cell)"],
@@ -294,8 +294,8 @@ PROPS["C02"] = {
     "corr_modules": ["QpackC", "SessionC", "E2C", "E3C"],
     "suites": [("e1", "qpack", ["debug"]), ("e1", "request", ["debug"]), ("e2", "client", ["debug"]), ("e2", "decide", ["debug"])],
     "technique": PROOF_TECH,
-    "level_text": "theorems: request fields = fixed pseudo-headers + URL authority/path, extras kept and never overriding; outcome = f(status) only (2xx iff session), extra response fields irrelevant; QPACK prefix integers round-trip for every width, static references sound, decoder total; tie: header maps through the real encoder/decoder (static hits, Huffman/raw, length boundaries) and the real client against a raw server for every status class -- the request bytes on the wire equal the model's byte for byte",
-    "level_note": CODEC_NOTE + WIRE_NOTE + "; URL parsing (url crate) is an oracle; the Huffman round trip is compared exhaustively (all symbols, sampled pairs) rather than proved in this revision",
+    "level_text": "theorems: request fields = fixed pseudo-headers + URL authority/path, extras kept and never overriding; outcome = f(status) only (2xx iff session), extra response fields irrelevant; QPACK prefix integers round-trip for every width, static references sound, decoder total; tie: header maps through the real encoder/decoder (static hits, Huffman/raw, length boundaries) and the real client against a raw server for every status class -- the request bytes on the wire equal the model's byte for byte; the library on both ends with the server application inspecting the request and taking each of its five decisions",
+    "level_note": CODEC_NOTE + WIRE_NOTE + "; URL parsing (url crate) is an oracle; the Huffman round trip is proved (Proofs/HuffmanP.v) and still compared exhaustively on all symbols and sampled pairs",
     "design_ref": "DESIGN.md 5 (C02)",
     "trusted_base": ["url crate", "httlib-huffman (modelled from its table; compared exhaustively on 1-symbol strings and 1-2 byte inputs every run)"],
     "assumptions": [],
